@@ -4,6 +4,7 @@ pub mod c01;
 pub mod c05;
 pub mod c06;
 pub mod c07;
+pub mod c30;
 pub mod c31;
 pub mod c32;
 pub mod c33;
@@ -11,6 +12,7 @@ pub mod c34;
 pub mod c35;
 pub mod c36;
 pub mod c37;
+pub mod c39;
 
 pub struct Property {
     pub id: &'static str,
@@ -24,6 +26,7 @@ pub const ALL: &[Property] = &[
     Property { id: "C05", level: "exploration", build: c05::build },
     Property { id: "C06", level: "exploration", build: c06::build },
     Property { id: "C07", level: "exploration", build: c07::build },
+    Property { id: "C30", level: "exploration", build: c30::build },
     Property { id: "C31", level: "exploration", build: c31::build },
     Property { id: "C32", level: "exploration", build: c32::build },
     Property { id: "C33", level: "exploration", build: c33::build },
@@ -31,6 +34,7 @@ pub const ALL: &[Property] = &[
     Property { id: "C35", level: "exploration", build: c35::build },
     Property { id: "C36", level: "exploration", build: c36::build },
     Property { id: "C37", level: "exploration", build: c37::build },
+    Property { id: "C39", level: "exploration", build: c39::build },
 ];
 
 pub fn find(id: &str) -> Option<&'static Property> {
